@@ -58,3 +58,19 @@ Proof.
   intros H. destruct (matcher_keeps_line _ _ _ _ _ _ H) as [E1 E2].
   replace (canon t') with (canon t) by (unfold canon; rewrite E1, E2; reflexivity). apply matcher_reads_line, H.
 Qed.
+
+(* only #Language and #DocStringSeparator matches change the matcher's state *)
+Theorem matcher_keeps_state ds k m t t' m' : k <> KLanguage -> k <> KDocStringSeparator ->
+  matcher ds k m t = MYes t' m' -> m' = m.
+Proof.
+  intros N1 N2. unfold matcher.
+  destruct k; try congruence; destruct (tk_line t) as [l|] eqn:L; try discriminate;
+    unfold match_title_line; matcher_cases; intros H; inversion H; subst; reflexivity.
+Qed.
+(* a closing separator carries no text *)
+Theorem matcher_sep_close ds m t t' m' sep : ms_sep m = Some sep ->
+  matcher ds KDocStringSeparator m t = MYes t' m' -> m_text t' = None.
+Proof.
+  intros Ms. unfold matcher. destruct (tk_line t) as [l|] eqn:L; try discriminate. rewrite Ms.
+  unfold match_docsep. matcher_cases; intros H; inversion H; subst; reflexivity.
+Qed.
